@@ -10,6 +10,7 @@ import (
 	"github.com/bronlabs/bron-crypto/pkg/base/curves/k256"
 	"github.com/bronlabs/bron-crypto/pkg/base/curves/p256"
 	"github.com/bronlabs/bron-crypto/pkg/base/curves/pairable/bls12381"
+	"github.com/bronlabs/bron-crypto/pkg/base/curves/pasta"
 	"github.com/bronlabs/bron-crypto/pkg/encryption/elgamal"
 )
 
@@ -147,10 +148,29 @@ func c16EGCurve[E elgamal.FiniteCyclicGroupElement[E, S], S algebra.UintLike[S]]
 			c.Emit(fmt.Sprintf("eg-dec %s %s %s %s", e.name, aHex, e.ptStr(cs[0]), e.ptStr(cs[1])), res)
 			c.Count("eg.dec." + e.name)
 		}
-		// encryption with given nonce through both paths
+		// encryption with given nonce through both paths: first the forced edge grid
+		// {identity, generator, (n-1)G} x {0, 1, n-1}, then random draws
+		nm1 := new(big.Int).Sub(e.order, big.NewInt(1))
+		type egCase struct {
+			M  E
+			rr *big.Int
+		}
+		var cases []egCase
+		if ki == 0 {
+			gen := e.group.Generator()
+			for _, M := range []E{e.group.OpIdentity(), gen, gen.ScalarOp(e.scOf(nm1))} {
+				for _, rr := range []*big.Int{big.NewInt(0), big.NewInt(1), nm1} {
+					cases = append(cases, egCase{M, rr})
+					c.Count("eg.edge." + e.name)
+				}
+			}
+		}
 		for i := 0; i < 4+chains; i++ {
-			M := e.randPoint(r)
-			rr := e.randScalar(r)
+			cases = append(cases, egCase{e.randPoint(r), e.randScalar(r)})
+		}
+		for _, cs := range cases {
+			M := cs.M
+			rr := cs.rr
 			var outs [2]string
 			for j, path := range []string{"pk", "sk"} {
 				var ctOut *elgamal.Ciphertext[E, S]
@@ -304,13 +324,38 @@ func c16ElGamal(c *Ctx) {
 		scBig: func(s *bls12381.Scalar) *big.Int { return new(big.Int).SetBytes(s.BytesBE()) },
 	}
 	c16EGCurve(c, bE, keys, chains, steps, 3)
+	// the remaining supported groups: fewer / shorter chains in the quick tier
+	chains2, steps2 := 1, 5
 	if c.Thorough() {
-		pE := &egEnv[*p256.Point, *p256.Scalar]{
-			name: "p256", group: cP256, order: fieldOrder(fP256),
-			ptStr: func(p *p256.Point) string { return pointStr(p) },
-			scOf:  func(v *big.Int) *p256.Scalar { return scalarFromBig(fP256, v) },
-			scBig: func(s *p256.Scalar) *big.Int { return new(big.Int).SetBytes(s.BytesBE()) },
-		}
-		c16EGCurve(c, pE, keys, chains, steps, 4)
+		chains2, steps2 = chains, steps
 	}
+	pE := &egEnv[*p256.Point, *p256.Scalar]{
+		name: "p256", group: cP256, order: fieldOrder(fP256),
+		ptStr: func(p *p256.Point) string { return pointStr(p) },
+		scOf:  func(v *big.Int) *p256.Scalar { return scalarFromBig(fP256, v) },
+		scBig: func(s *p256.Scalar) *big.Int { return new(big.Int).SetBytes(s.BytesBE()) },
+	}
+	c16EGCurve(c, pE, keys, chains2, steps2, 4)
+	paE := &egEnv[*pasta.PallasPoint, *pasta.PallasScalar]{
+		name: "pallas", group: cPallas, order: fieldOrder(fPallas),
+		ptStr: func(p *pasta.PallasPoint) string { return pointStr(p) },
+		scOf:  func(v *big.Int) *pasta.PallasScalar { return scalarFromBig(fPallas, v) },
+		scBig: func(s *pasta.PallasScalar) *big.Int { return new(big.Int).SetBytes(s.BytesBE()) },
+	}
+	c16EGCurve(c, paE, keys, chains2, steps2, 5)
+	fVesta := pasta.NewVestaScalarField()
+	vE := &egEnv[*pasta.VestaPoint, *pasta.VestaScalar]{
+		name: "vesta", group: cVesta, order: fieldOrder(fVesta),
+		ptStr: func(p *pasta.VestaPoint) string { return pointStr(p) },
+		scOf:  func(v *big.Int) *pasta.VestaScalar { return scalarFromBig(fVesta, v) },
+		scBig: func(s *pasta.VestaScalar) *big.Int { return new(big.Int).SetBytes(s.BytesBE()) },
+	}
+	c16EGCurve(c, vE, keys, chains2, steps2, 6)
+	g2E := &egEnv[*bls12381.PointG2, *bls12381.Scalar]{
+		name: "bls12381g2", group: cBLSG2, order: fieldOrder(fBLS),
+		ptStr: func(p *bls12381.PointG2) string { return pointStr(p) },
+		scOf:  func(v *big.Int) *bls12381.Scalar { return scalarFromBig(fBLS, v) },
+		scBig: func(s *bls12381.Scalar) *big.Int { return new(big.Int).SetBytes(s.BytesBE()) },
+	}
+	c16EGCurve(c, g2E, keys, chains2, steps2, 7)
 }
